@@ -72,12 +72,26 @@ Shapes(k, st) ==
     [shape |-> "wrongkind", u |-> U(<<Slot(A1, OtherKind(k), "X", Conc("X", <<>>))>>, R(Root, A1, OtherKind(k), "X", st), k)],
     [shape |-> "refcycle", u |-> U(<<Slot(A1, k, "X", RefC(R(A1, B1, k, "Y", st))), Slot(B1, k, "Y", RefC(R(B1, A1, k, "X", st)))>>,
                                    R(Root, A1, k, "X", st), k)],
+    [shape |-> "sametail",      \* two files with the same path tail, one below the root's directory and one beside it
+     u |-> U(<<Slot(<<"r", "shared", "x.json">>, k, "X", Conc("X", <<>>)), Slot(<<"shared", "x.json">>, k, "X", Conc("X2", <<>>)),
+               Slot(Root, k, "V", RefC(R(Root, <<"shared", "x.json">>, k, "X", st)))>>, R(Root, <<"r", "shared", "x.json">>, k, "X", st), k)],
+    [shape |-> "escaped",       \* component names whose JSON-pointer tokens need escaping: "/" -> ~1, "~" -> ~0
+     u |-> U(<<Slot(A1, k, "a~1b", Conc("T", <<>>)), Slot(A1, k, "a/b", Conc("S", <<>>)), Slot(A1, k, "a~b", Conc("Q", <<>>)),
+               Slot(A1, k, "a~0b", Conc("P", <<>>)),
+               Slot(Root, k, "V", RefC(R(Root, A1, k, "a/b", st))), Slot(Root, k, "W", RefC(R(Root, A1, k, "a~b", st))),
+               Slot(Root, k, "Y", RefC(R(Root, A1, k, "a~0b", st)))>>, R(Root, A1, k, "a~1b", st), k)],
+    [shape |-> "escaped_missing",   \* only the "/" sibling exists: the reference to the literal "~1" name designates nothing
+     u |-> U(<<Slot(A1, k, "a/b", Conc("S", <<>>))>>, R(Root, A1, k, "a~1b", st), k)],
     [shape |-> "sameroot", u |-> U(<<Slot(Root, k, "X", Conc("X", <<>>))>>, R(Root, Root, k, "X", st), k)]}
    \cup (IF st \in {"schemeless", "https"}       \* another host, but the very path of the root document
          THEN {[shape |-> "otherhost_samepath",
                 u |-> U(<<Slot(Root, k, "X", Conc("X", <<>>))>>,
                         [path |-> <<(IF st = "schemeless" THEN "//h.example<T>" ELSE "https://h.example<T>")>> \o Root, frag |-> <<k, "X">>], k)]}
          ELSE {})
+   \cup  \* one external file defining the same component name in two collections
+   {[shape |-> "samename_otherkind", site |-> k2,
+     u |-> U(<<Slot(A1, k, "X", Conc("X", <<>>)), Slot(A1, k2, "X", Conc("X2", <<>>)),
+               Slot(Root, k2, "V", RefC(R(Root, A1, k2, "X", st)))>>, R(Root, A1, k, "X", st), k)] : k2 \in Kinds \ {k}}
    \cup
    UNION {
      {[shape |-> "child", site |-> s.site,
@@ -115,6 +129,12 @@ Shapes(k, st) ==
        u |-> U(<<Slot(W1, k, "", Conc("W", <<>>) @@ [inl |-> <<[site |-> "properties", id |-> "P"]>>]),
                  Slot(Root, k, "Acc", Conc("Acc", <<Ch("properties", k, [path |-> Spell(Root, W1, st), frag |-> <<"#inl", "properties">>])>>)),
                  Slot(Root, k, "Rec", RefC(RW(Root, W1, st)))>>, R(Root, Root, k, "Acc", st), k)]}
+     \cup
+     {[shape |-> "wholeself2",       \* a whole-file schema referring to its own file from two places
+       u |-> U(<<Slot(W1, k, "", Conc("W", <<Ch("properties", k, RW(W1, W1, st)), Ch("items", k, RW(W1, W1, st))>>))>>, RW(Root, W1, st), k)],
+      [shape |-> "wholeself2_via",   \* the same, entered from another external schema
+       u |-> U(<<Slot(W1, k, "", Conc("W", <<Ch("properties", k, RW(W1, W1, st)), Ch("items", k, RW(W1, W1, st))>>)),
+                 Slot(A1, k, "X", Conc("X", <<Ch("items", k, RW(A1, W1, st))>>))>>, R(Root, A1, k, "X", st), k)]}
      \cup
      UNION {
       {[shape |-> "selfcycle", site |-> s.site,
